@@ -9,6 +9,7 @@ CONSTANTS
   NOCOPY = {}
   OBJ = "tmap"
   ALIASARG = FALSE
+  SAMEKEEP = FALSE
   UNWRITTEN = {}
   EmitMode = 2
 INVARIANT Coherent
